@@ -139,8 +139,7 @@ Restart ==
   /\ ~alive
   /\ alive' = TRUE /\ torn' = FALSE /\ pc' = "idle" /\ cur' = <<>> /\ tmp' = <<>>
   /\ emitted' = file
-  /\ removed' = {}
-  /\ UNCHANGED <<chan, buf, file, acked, replies, before, nreq, crashes>>
+  /\ UNCHANGED <<chan, buf, file, acked, replies, removed, before, nreq, crashes>>
 
 Next ==
   \/ \E j \in Jobs \cup {0} : Emit(j)
